@@ -241,6 +241,14 @@ example :
       s.removable = [some 0] :=
   ⟨_, _, rfl, rfl, by decide +kernel, by decide +kernel⟩
 
+/-- `Reachable` itself: three `suggest`s on the same system; the third finds both base slots
+of bracket 0 handed out and opens bracket 1 (rung system 1 mod 2), two brackets are open. -/
+example :
+    ∃ s, Reachable .min [[(2, 1), (1, 2)], [(1, 2)]] s ∧ s.mgr.brackets.length = 2 ∧ s.mgr.primary = 0 ∧
+      s.mgr.idToOffset = [0, 1] ∧ s.pending.map (·.1) = [0, 1, 2] :=
+  ⟨_, ⟨false, false, _, [.suggest 0 true, .suggest 1 true, .suggest 2 true], rfl, by decide +kernel, rfl⟩,
+    by decide +kernel, by decide +kernel, by decide +kernel, by decide +kernel⟩
+
 example : topList [(some 0, .val 3), (some 1, .nan), (some 2, .val 1), (some 3, .val 3)] 2 .min = [some 2, some 0] := by
   decide +kernel
 
